@@ -395,10 +395,13 @@ theorem sound_cmp (F : FloatOps) (tok : BinaryToken) (op : CmpOp) (htok : tok.to
     rw [this, (hc _ _ _).1]
     cases op <;> simp [cmpBy, cmpPick, strLt_eq, Bool.or_comm]
   case nullPointer.nullPointer =>
-    simp only [evalComparison] at h; cases h
-    simp only [inRange, binary, valOf, true_and]
-    rw [(hc true true true).2, if_pos rfl, (hc _ _ _).1]
-    cases op <;> simp [cmpBy, cmpPick]
+    simp only [evalComparison] at h
+    split at h
+    · rename_i hop
+      cases h
+      simp only [inRange, binary, valOf, true_and]
+      cases tok <;> simp [BinaryToken.toOp] at htok <;> subst htok <;> simp [cmpBy] at hop ⊢
+    · cases h
 
 
 end QV.Proofs.ConstFold
